@@ -1,5 +1,6 @@
 import Dbus.Model.Bus.Table
 import Dbus.Model.Bus.Raw
+import Dbus.Model.Bus.Fds
 import Driver.Wire
 /- driver commands for the message-bus model -/
 open Dbus Dbus.Spec Dbus.Model Dbus.Model.Bus
@@ -8,6 +9,9 @@ structure BusState where
   bus : Bus := {}
   maxMsg : Nat := MAX_MESSAGE_LENGTH
   loaders : List (Nat × Loader) := []
+  pending : List (Nat × List Nat) := []
+  closed : List Nat := []
+  maxMsgFds : Nat := 16
 
 def showOut : Out → String
   | .deliver to m => s!"D {to} {showMsgX m 0}"
@@ -39,13 +43,33 @@ def showState (b : Bus) : String :=
 def natList (s : String) : List Nat :=
   if s = "-" then [] else (s.splitOn ",").filterMap (·.toNat?)
 
-def busCmd (st : BusState) (toks : List String) : BusState × String :=
+def BusState.fdnet (st : BusState) : FdNet :=
+  { net := { bus := st.bus, loaders := st.loaders, maxMsg := st.maxMsg }, pending := st.pending, closed := st.closed,
+    maxMsgFds := st.maxMsgFds }
+
+def BusState.ofFdnet (st : BusState) (n : FdNet) : BusState :=
+  { st with bus := n.net.bus, loaders := n.net.loaders, pending := n.pending, closed := n.closed }
+
+/-- loaders (and the descriptors pending in them) of connections that have gone are finalized -/
+def BusState.swept (st : BusState) : BusState := st.ofFdnet st.fdnet.sweep
+
+def showFdOut (toks : List Nat) : Out → String
+  | .deliver to m =>
+    let base := s!"D {to} {showMsgX m 0}"
+    if m.nFds > 0 then base ++ " fdtok=" ++ ",".intercalate (toks.map toString) else base
+  | o => showOut o
+
+def showFdTx (p : FdTx) : String :=
+  let os := p.1.out ++ p.1.mon
+  if os.isEmpty then "-" else " | ".intercalate (os.map (showFdOut p.2))
+
+def busCmd0 (st : BusState) (toks : List String) : BusState × String :=
   match toks with
   | "reset" :: rest =>
     let l : Limits := { maxNames := kvNat rest "names" 512, maxRules := kvNat rest "rules" 512,
                         maxCompleted := kvNat rest "completed" 2048, maxPerUser := kvNat rest "peruser" 256,
                         maxReplies := kvNat rest "replies" 128 }
-    ({ bus := { limits := l }, maxMsg := kvNat rest "maxmsg" MAX_MESSAGE_LENGTH }, "ok")
+    ({ bus := { limits := l }, maxMsg := kvNat rest "maxmsg" MAX_MESSAGE_LENGTH, maxMsgFds := kvNat rest "maxfds" 16 }, "ok")
   | ["connect", c, uid, gids, fd] =>
     match c.toNat?, uid.toNat? with
     | some c, some uid =>
@@ -77,6 +101,21 @@ def busCmd (st : BusState) (toks : List String) : BusState × String :=
           let parts := (txs.map showTx).filter (· ≠ "-")
           if parts.isEmpty then "-" else " | ".intercalate parts)
     | _, _ => (st, "bad-op")
+  | ["fdwrite", c, hex, tk] =>
+    match c.toNat?, ofHex hex with
+    | some c, some bs =>
+      let (n', txs) := fdStep driverTable st.fdnet (.write c bs (natList tk))
+      let parts := (txs.map showFdTx).filter (· ≠ "-")
+      (st.ofFdnet n', if parts.isEmpty then "-" else " | ".intercalate parts)
+    | _, _ => (st, "bad-op")
+  | ["fdtimeout"] =>
+    let (n', txs) := fdStep driverTable st.fdnet .pendingTimeout
+    let parts := (txs.map showFdTx).filter (· ≠ "-")
+    (st.ofFdnet n', if parts.isEmpty then "-" else " | ".intercalate parts)
+  | ["fdstate"] =>
+    let pend := st.pending.filter (fun p => !p.2.isEmpty)
+    let ps := pend.map fun p => s!"{p.1}:{",".intercalate (p.2.map toString)}"
+    (st, s!"pending={if ps.isEmpty then "-" else " ".intercalate ps} open={(pend.map (·.2.length)).sum} closed={st.closed.length}")
   | ["nop"] => (st, "-")
   | ["close", c] =>
     match c.toNat? with
@@ -112,3 +151,7 @@ def busCmd (st : BusState) (toks : List String) : BusState × String :=
     ({ st with bus := t.bus }, showTx t)
   | ["state"] => (st, showState st.bus)
   | _ => (st, "bad-op")
+
+def busCmd (st : BusState) (toks : List String) : BusState × String :=
+  let (st', ans) := busCmd0 st toks
+  (st'.swept, ans)
